@@ -229,11 +229,10 @@ impl<T: ?Sized, R> Mutex<T, R> {
 }
 
 impl<T: ?Sized, R: RawMutex> Mutex<T, R> {
-	pub fn scoped_lock<'a, Ret>(
-		&'a self,
-		key: impl Keyable,
-		f: impl FnOnce(&'a mut T) -> Ret,
-	) -> Ret {
+	// The closure must accept a reference of any lifetime, so that the
+	// reference (or anything derived from it) cannot be returned out of the
+	// closure and outlive the lock.
+	pub fn scoped_lock<Ret>(&self, key: impl Keyable, f: impl FnOnce(&mut T) -> Ret) -> Ret {
 		unsafe {
 			// safety: we have the key
 			self.raw_write();
@@ -254,10 +253,10 @@ impl<T: ?Sized, R: RawMutex> Mutex<T, R> {
 		}
 	}
 
-	pub fn scoped_try_lock<'a, Key: Keyable, Ret>(
-		&'a self,
+	pub fn scoped_try_lock<Key: Keyable, Ret>(
+		&self,
 		key: Key,
-		f: impl FnOnce(&'a mut T) -> Ret,
+		f: impl FnOnce(&mut T) -> Ret,
 	) -> Result<Ret, Key> {
 		unsafe {
 			// safety: we have the key
